@@ -55,6 +55,26 @@ def h_find_if(em, name, r, args, n, rvalue):
     cont = em.find_container_in(first); ct = em.container_type(first)
     if cont is None or ct is None: raise Unsupported('%s over unknown container at %s' % (name, em.where(n)))
     em.require_full_range(first, last, n)
+    if ct.kind == 'opaque' and name != 'find_if':
+        # any_of / all_of / none_of over an abstract sequence (the container is not modelled): indexed access through the two
+        # stubs <T>_iter_size / <T>_iter_get, as for a range-for over it
+        op = lambda_call_op(em, lam); params = em.params_of(op)
+        if len(params) != 1: raise Unsupported('%s predicate with %d parameters' % (name, len(params)))
+        et = em.tyq(params[0]['type'])
+        for fn, proto in (('%s_iter_size' % ct.c, 'size_t %s_iter_size(const %s* this_);' % (ct.c, ct.c)),
+                          ('%s_iter_get' % ct.c, '%s %s_iter_get(const %s* this_, size_t index);' % (et.c, ct.c, ct.c))):
+            em.autostubs.setdefault(fn, proto); em.fninfo.setdefault(fn, {'qname': fn, 'stub': True})
+        res = em.tmp('found'); j = em.tmp('j'); el = em.tmp('el'); cnt = em.tmp('n')
+        saved = em.pre; em.pre = []
+        cond = inline_lambda(em, lam, [el])
+        inner = em.pre; em.pre = saved
+        c_ = cond if name != 'all_of' else '!(%s)' % cond
+        em.pre.append('cc_bool %s = 0;' % res)
+        em.pre.append('{ size_t %s; size_t %s = %s_iter_size(%s); for (%s = 0; %s < %s; ++%s)' % (j, cnt, ct.c, em.addr(cont), j, j, cnt, j))
+        em.pre.append(em.loop_marker())
+        em.pre.append('  { if (!%s) { %s %s = %s_iter_get(%s, %s); %s if (%s) %s = 1; } } }' % (res, et.c, el, ct.c, em.addr(cont), j, ' '.join(inner), c_, res))
+        em.rules['std::%s-as-loop(opaque sequence)' % name] += 1
+        return res if name == 'any_of' else '(!%s)' % res
     res = em.tmp('found'); j = em.tmp('j')
     saved = em.pre; em.pre = []
     cond = inline_lambda(em, lam, ['%s.data[%s]' % (cont, j)])
